@@ -212,7 +212,11 @@ PAIR_LEXEMES = LEXEMES + ["'O''Neil'", "'O\\'Neil'", '"O\'Neil"', "@'my var'", '
 def pair_leaf(ka, kb, gap, nl):
     a, b = PAIR_LEXEMES[ka], PAIR_LEXEMES[kb]
     sep = ' ' * gap + ('\n' if nl else '')
-    return _verbatim('select ' + a + sep + ',' + sep + ' ' + b + ' from t') and _verbatim('select f(' + b + ', ' + a + ') from t where c = ' + a)
+    # .. and the two tokens next to each other with nothing but blanks / a line break between them (b reads as an alias of a, or the query is
+    # not valid SQL at all: a raw inner query is stored, not parsed)
+    adj = sep if sep else ' '
+    return _verbatim('select ' + a + sep + ',' + sep + ' ' + b + ' from t') and _verbatim('select f(' + b + ', ' + a + ') from t where c = ' + a) \
+        and _verbatim('select ' + a + adj + b + ' from t') and _verbatim('select ' + a + adj + b + adj + a)
 
 
 def pair(ka: int, kb: int, gap: int, nl: bool) -> bool:
